@@ -54,7 +54,7 @@ Definition check3 (a b c : token_type) : bool := check_b [a; b; c].
 
 Lemma triples_ok_true :
   forallb (fun a => forallb (fun b => forallb (fun c => check3 a b c) all_token_type) all_token_type) all_token_type = true.
-Proof. vm_compute. reflexivity. Qed.
+Proof. vm_cast_no_check (@eq_refl bool true). Qed.
 
 Lemma triples_check : forall a b c, check_b [a; b; c] = true.
 Proof.
@@ -66,12 +66,18 @@ Qed.
 (* ---- length <= 5 over the reduced alphabet ---- *)
 Definition reduced_ok (n : nat) : bool := forallb check_b (seqs reduced_alphabet n).
 
-Lemma reduced_ok_0 : reduced_ok 0 = true. Proof. vm_compute. reflexivity. Qed.
-Lemma reduced_ok_1 : reduced_ok 1 = true. Proof. vm_compute. reflexivity. Qed.
-Lemma reduced_ok_2 : reduced_ok 2 = true. Proof. vm_compute. reflexivity. Qed.
-Lemma reduced_ok_3 : reduced_ok 3 = true. Proof. vm_compute. reflexivity. Qed.
-Lemma reduced_ok_4 : reduced_ok 4 = true. Proof. vm_compute. reflexivity. Qed.
-Lemma reduced_ok_5 : reduced_ok 5 = true. Proof. vm_compute. reflexivity. Qed.
+Lemma reduced_ok_0 : reduced_ok 0 = true.
+Proof. vm_cast_no_check (@eq_refl bool true). Qed.
+Lemma reduced_ok_1 : reduced_ok 1 = true.
+Proof. vm_cast_no_check (@eq_refl bool true). Qed.
+Lemma reduced_ok_2 : reduced_ok 2 = true.
+Proof. vm_cast_no_check (@eq_refl bool true). Qed.
+Lemma reduced_ok_3 : reduced_ok 3 = true.
+Proof. vm_cast_no_check (@eq_refl bool true). Qed.
+Lemma reduced_ok_4 : reduced_ok 4 = true.
+Proof. vm_cast_no_check (@eq_refl bool true). Qed.
+Lemma reduced_ok_5 : reduced_ok 5 = true.
+Proof. vm_cast_no_check (@eq_refl bool true). Qed.
 
 Lemma reduced_ok_spec : forall n toks, reduced_ok n = true -> length toks = n ->
   (forall x, In x toks -> In x reduced_alphabet) -> check_b toks = true.
